@@ -561,15 +561,20 @@ impl PendingEntryList {
         consumer: Option<&str>
     ) -> Vec<PendingEntry> {
         let iter: Box<dyn Iterator<Item = &PendingEntry>> = if let Some(consumer_name) = consumer {
-            // Filter by consumer
-            if let Some(consumer_ids) = self.entries_by_consumer.get(consumer_name) {
-                Box::new(
-                    consumer_ids.iter()
-                        .filter_map(|id| self.entries_by_id.get(id))
-                )
-            } else {
-                Box::new(std::iter::empty())
+            // The consumer's entries inside the range, in ID order
+            let start = start.unwrap_or(StreamId::min());
+            let end = end.unwrap_or(StreamId::max());
+            
+            if start > end {
+                return Vec::new();
             }
+            
+            Box::new(
+                self.entries_by_id
+                    .range(start..=end)
+                    .map(|(_, entry)| entry)
+                    .filter(move |entry| entry.consumer == consumer_name)
+            )
         } else {
             // All entries in range
             let start = start.unwrap_or(StreamId::min());
